@@ -1,10 +1,10 @@
 Require Extraction.
 Require Import ExtrOcamlBasic.
-From CSL Require Import Base.Prelude Base.Hex Cbor.Head Codec.Schema Ledger.Schemas.
+From CSL Require Import Base.Prelude Base.Hex Cbor.Head Codec.Schema Codec.SchemaApi Ledger.Schemas.
 Extraction Language OCaml.
 Definition keepN : N := N.add 0 0.
 Definition keepZ : Z := Z.add 0 0.
-Extraction "model_c01.ml" keepN keepZ enc dec wfv wfs hex unhex refined writer_form reward_sort_key is_empty_val reward_sort_key is_empty_val
+Extraction "model_c01.ml" keepN keepZ enc dec wfv wfs hex unhex norm wfa api_holds api_model_accepts refined writer_form reward_sort_key is_empty_val reward_sort_key is_empty_val
   TransactionInput TransactionInputs Credential Credentials Ed25519KeyHashes DRep Anchor UnitInterval
   Relay Relays PoolMetadata ProtocolVersion ExUnits ExUnitPrices Nonce MoveInstantaneousReward
   Certificate Certificates Assets MultiAsset Value MintAssets Mint Withdrawals Voter GovernanceActionId
@@ -14,4 +14,15 @@ Extraction "model_c01.ml" keepN keepZ enc dec wfv wfs hex unhex refined writer_f
   PlutusList Redeemers Metadatum GeneralTransactionMetadata AuxiliaryData DataOption ScriptRef
   TransactionOutputLegacy TransactionOutputLegacyDH TransactionOutputMap TransactionOutput
   TransactionOutputs TransactionBody Vkeywitness Vkeywitnesses BootstrapWitness BootstrapWitnesses
-  TransactionWitnessSet Transaction VRFCert OperationalCert HeaderBody Header Block IntS HeaderBodyPraos HeaderPraos.
+  TransactionWitnessSet Transaction VRFCert OperationalCert HeaderBody Header Block IntS HeaderBodyPraos HeaderPraos
+  BlockPraos StakeRegistration StakeDeregistration StakeDelegation PoolParams PoolRegistration PoolRetirement
+  GenesisKeyDelegation MoveInstantaneousRewardsCert VoteDelegation StakeAndVoteDelegation
+  StakeRegistrationAndDelegation VoteRegistrationAndDelegation StakeVoteRegistrationAndDelegation
+  CommitteeHotAuth CommitteeColdResign DRepRegistration DRepDeregistration DRepUpdate
+  SingleHostAddr SingleHostName MultiHostName Ipv4 Ipv6 URL DNSName Committee
+  ParameterChangeAction HardForkInitiationAction TreasuryWithdrawalsAction NoConfidenceAction
+  UpdateCommitteeAction NewConstitutionAction MetadataList MetadataMap PlutusMap ConstrPlutusData
+  BigInt Redeemer RedeemerTag Language CostModel NetworkId Vkey AssetNameS PlutusScriptBytes
+  MIRToStakeCredentials TransactionBodies TransactionWitnessSets TransactionUnspentOutput
+  ScriptPubkey ScriptAll ScriptAny ScriptNOfK TimelockStart TimelockExpiry AssetNames GenesisHashes ScriptHashes
+  RewardAddresses TransactionMetadatumLabels BigNum VersionedBlock.
